@@ -121,7 +121,14 @@ class BasicBlock:
         body = self._exprs
 
         if self._config.common_subexpression_elimination:
-            prefix, body = cse(body, symbols=(Symbol(f"_t{i}") for i in count()))
+            # temporaries must not reuse the name of a variable this block declares
+            reserved = {str(target).split()[-1] for target in self._targets}
+            prefix, body = cse(
+                body,
+                symbols=(
+                    Symbol(f"_t{i}") for i in count() if f"_t{i}" not in reserved
+                ),
+            )
 
         # Note: The list of statements is ordered and can get CSE or reordered
         # within the block because we know it is straight calculation without
